@@ -127,6 +127,10 @@ def near_boundary(ref, pd, x):
     if pd is None:
         return False
     model.evaluate(ref, pd, x)      # DomainError here means "outside the domain", not "near a boundary"
+    if x == 0.0:
+        # row 0 of every table sits at exactly 0.0 (0 * step carries no rounding): which side of a boundary at 0 it
+        # is on is not in doubt ('>=0 f' gives f(0), '>0 f' and a bare 'f' give 0)
+        return False
     return not model.same_piece(ref, pd, x, 64 * 2.3e-16 * max(1.0, abs(x)))
 
 
